@@ -11,9 +11,11 @@ import stages
 def walk_shp(buf):
     """(offset_words, content_words) of every record found by walking the .shp."""
     out, pos = [], 100
-    while pos + 8 <= len(buf):
+    while 0 <= pos and pos + 8 <= len(buf):
         _, words = struct.unpack(">ii", buf[pos:pos + 8])
         out.append((pos // 2, words))
+        if words < 0:
+            return out, -1                  # a negative content length: the walk cannot go on
         pos += 8 + 2 * words
     return out, pos
 
@@ -48,6 +50,8 @@ def reader_ops(n, key):
     if n > 1:
         # random access away from index 0, then the size hint and iteration of the same reader (which restart at 0)
         ops += [("nth", n - 1), ("hint",), ("it", 1), ("nth", 1), ("hint",), ("it", -1)]
+        # iterator adaptors (skip / take), also reaching beyond the last shape
+        ops += [("seek", 0), ("skiptake", 1, 1), ("hint",), ("skiptake", n, 2), ("hint",), ("it", -1)]
     return ops
 
 
@@ -67,6 +71,11 @@ def abstract_reader(n, ops):
             else:
                 out.append(("items", avail[:o[1]], 0))
                 nxt += o[1]
+        elif o[0] == "skiptake":
+            # iterator adaptors skip(k).take(j), j >= 1: pulls k + j items or until the end, keeps the last j
+            avail = list(range(nxt, n))
+            out.append(("items_only", avail[o[1]:o[1] + o[2]]))
+            nxt = min(n, nxt + o[1] + o[2])
         elif o[0] == "nth":
             if o[1] < n:
                 out.append(("nth", o[1]))
@@ -93,6 +102,10 @@ def check_against_abstract(rd, ops, seq_items, n):
             items = got["items"]
             if [tuple(i) for i in items] != [tuple(seq_items[k]) for k in want[1]] or got["ended"] != want[2]:
                 return "iteration (op %r) yielded %d items (ended %r), expected records %r" % (o, len(items), got["ended"], want[1])
+        if want[0] == "items_only":
+            items = got["items"]
+            if [tuple(i) for i in items] != [tuple(seq_items[k]) for k in want[1]]:
+                return "iterator adaptors %r yielded %d items, expected records %r" % (o, len(items), want[1])
         if want[0] == "nth":
             if want[1] is None:
                 if got["nth"] is not None:
@@ -111,8 +124,12 @@ def run(rep, tier, rng):
     files = []
     for i in range(nfiles):
         code = shapes.ALL_CODES[i % 13]
-        f = P.gen_file(rng, code, nshapes=rng.choice([0, 1, 2, 3, 4, 6]))
-        f["calls"] = P.finalize_placements(rng, len(f["specs"]))
+        # the second file of every measured type carries no measure at all (every M = NO_DATA)
+        prof = "nom" if (i // 13 == 1 and shapes.dim_of(code) >= 3) else "mixed"
+        f = P.gen_file(rng, code, nshapes=rng.choice([0, 1, 2, 3, 4, 6]) if prof == "mixed" else 3, profile=prof)
+        # every fourth file also offers shapes of another type in between (refused: the index must not count them)
+        other = shapes.gen_ctor(rng, rng.choice([t for t in shapes.ALL_CODES if t != code]), "small")
+        f["calls"] = P.finalize_placements(rng, len(f["specs"]), rejected=(0.6, other) if i % 4 == 2 else None)
         files.append(f)
     # more than 1024 records (beyond every pre-allocation cap of the reader)
     big = {"code": 1, "specs": [shapes.gen_ctor(rng, 1, "small") for _ in range(1030 if tier != "thorough" else 2100)]}
@@ -135,7 +152,7 @@ def run(rep, tier, rng):
         if msg:
             nfail += 1
             if nfail == 1:
-                wire = [("w", f["specs"][c[1]]) if c[0] == "w" else c for c in f["calls"]]
+                wire = [("w", f["specs"][c[1]]) if c[0] == "w" else (("w", c[1]) if c[0] == "x" else c) for c in f["calls"]]
                 rep.violation({"kind": "oracle", "what": msg, "case_kind": "whist", "case": C.whist_case(True, 0, wire)[:2000],
                                "code": f["code"], "shapes": len(f["specs"])})
         if "special" in w:
